@@ -310,6 +310,17 @@ def neuron_runs(rng: random.Random, tier: str):
                         i += 1
                         runs.append(dict(cls=cls, lock=lock, adapt=adapt, lax=lax, D=D, R=R, tick=tick, shape=list(shape),
                                          batch=batch, recipe=recipe, steps=steps, kind=kind, seed=rng.randrange(1 << 30)))
+    # extra runs (on top of the plan above, whose case coverage is a vacuity guard): sub-microsecond time scales - steps of
+    # 2^-22 .. 2^-21 with refractory periods of a few steps, and 1e-7-grained floats - where an ABSOLUTE epsilon in the
+    # refractory countdown (e.g. "remaining <= 1e-6 counts as 0") would free a neuron inside its window
+    rng2 = random.Random(rng.randrange(1 << 30))
+    for j, cls in enumerate(CLASSES):
+        for lax in (False, True):
+            D = rng2.choice([2, 4])
+            kind = ("multiple", "nonmultiple")[(j + int(lax)) % 2]
+            R = (2 * D) if kind == "multiple" else (2 * D + 1)
+            runs.append(dict(cls=cls, lock=bool((j + int(lax)) % 2), adapt=False, lax=lax, D=D, R=R, tick=(1e-7 if lax else 2.0 ** -23),
+                             shape=[3], batch=2, recipe=0, steps=steps, kind=kind, seed=rng2.randrange(1 << 30), tiny=True))
     return runs
 
 
@@ -323,7 +334,8 @@ def record_run(run: dict, mutate=None):
     if run["seed"] % 3 == 0:
         dt_built = run["D"] * run["tick"] * (2.0 if run["seed"] % 2 else 0.5)
     probe = NeuronProbe(run["cls"], run["shape"], run["batch"], run["D"], run["R"], run["tick"], run["lock"],
-                        run["adapt"], RECIPES[run["cls"]][run["recipe"]], run["lax"], dt_built=dt_built)
+                        run["adapt"], RECIPES[run["cls"]][run["recipe"]], run["lax"], dt_built=dt_built,
+                        f64=(run["seed"] % 5 == 1))       # every fifth group lives in float64 (seeded C03-m13)
     if run["adapt"]:
         probe.n.train()
     init = probe.init_state()
